@@ -228,6 +228,122 @@ def finding_models():
     ]
 
 
+# --------------------------------------------------------------------------- buffer-size matrix
+LONG = {"name": "carrier_variable_with_the_strictly_longest_name", "units": "units_with_the_strictly_longest_units_name",
+        "component": "component_with_the_strictly_longest_component_name"}
+CARRIERS = ["voi", "state", "constant", "computed_constant", "algebraic", "external"]
+BUFFER_KINDS = {"ode": CARRIERS, "dae": CARRIERS, "algebraic": ["constant", "computed_constant", "external"],
+                "nla": ["constant", "computed_constant", "algebraic", "external"]}
+
+
+def _v(name, units="dimensionless", init=None, iface=None):
+    return '    <variable name="%s" units="%s"%s%s/>\n' % (
+        name, units, "" if init is None else ' initial_value="%s"' % init, "" if iface is None else ' interface="%s"' % iface)
+
+
+def buffer_model(kind, field, carrier):
+    """a model of analyser type `kind` in which the STRICTLY longest `field` string (name / units / component) belongs to
+    a variable of class `carrier` and to nothing else: every other string of that field is short.  The carrier lives in a
+    component of its own; which variable the analyser makes primary is re-checked on the accessor dump (the check counts
+    a cell of the matrix only when the dump confirms it)."""
+    ode = kind in ("ode", "dae")
+    nla = kind in ("dae", "nla")
+    q = LONG["name"] if field == "name" else "q"
+    qu = LONG["units"] if field == "units" else "dimensionless"
+    car = LONG["component"] if field == "component" else "car"
+    name = "buffer__%s__%s__%s" % (kind, field, carrier)
+    units = '  <units name="%s">\n    <unit units="dimensionless"/>\n  </units>\n' % LONG["units"] if field == "units" else ""
+    externals = []
+    mv, me = [_v("k", init="2"), _v("cc")], [eqn(ci("cc"), ap("plus", ci("k"), cn("1")))]
+    connections = ""
+    if ode:
+        mv += [_v("t", iface="public"), _v("x", init="1", iface="public"), _v("al")]
+        me += [eqn(ap("diff", "<bvar>%s</bvar>" % ci("t"), ci("x")), ci("k")), eqn(ci("al"), ap("plus", ci("x"), ci("k")))]
+    if nla:
+        mv += [_v("z")]
+        me += [eqn(ap("plus", ci("z"), ap("times", ci("k"), ci("z"))), ci("cc"))]
+    if carrier != "external":
+        mv += [_v("e", init="2")]
+        externals.append("main.e")
+    cv, ce = [], []
+    if carrier == "voi":
+        cv = [_v(q, qu, iface="public")]
+        connections = '  <connection component_1="%s" component_2="main">\n    <map_variables variable_1="%s" variable_2="t"/>\n  </connection>\n' % (car, q)
+    elif carrier == "state":
+        cv = [_v("tl", iface="public"), _v(q, qu, init="1")]
+        ce = [eqn(ap("diff", "<bvar>%s</bvar>" % ci("tl"), ci(q)), cn("1"))]
+        connections = '  <connection component_1="main" component_2="%s">\n    <map_variables variable_1="t" variable_2="tl"/>\n  </connection>\n' % car
+    elif carrier == "constant":
+        cv = [_v(q, qu, init="2")]
+    elif carrier == "computed_constant":
+        cv = [_v(q, qu)]
+        ce = [eqn(ci(q), cn("3"))]
+    elif carrier == "algebraic":
+        if ode:
+            cv = [_v("xl", iface="public"), _v(q, qu)]
+            ce = [eqn(ci(q), ap("plus", ci("xl"), cn("1")))]
+            connections = '  <connection component_1="main" component_2="%s">\n    <map_variables variable_1="x" variable_2="xl"/>\n  </connection>\n' % car
+        else:
+            # without ODEs a variable is ALGEBRAIC when it is an NLA unknown with an initial guess: a 2-unknown system
+            # over literals only (an initialised constant used in it would be taken for an unknown as well)
+            cv = [_v(q, qu, init="1"), _v("p", init="1")]
+            ce = [eqn(ap("plus", ci(q), ci("p")), cn("3")), eqn(ap("minus", ci(q), ci("p")), cn("1"))]
+    elif carrier == "external":
+        cv = [_v(q, qu, init="2")]
+        externals.append("%s.%s" % (car, q))
+    main = '  <component name="main">\n' + "".join(mv) + _MATH % "".join(me) + "  </component>\n"
+    carc = '  <component name="%s">\n' % car + "".join(cv) + (_MATH % "".join(ce) if ce else "") + "  </component>\n"
+    body = (carc + main) if carrier == "voi" else (main + carc)
+    xml = _HDR % name + units + body + connections + "</model>\n"
+    return {"name": name, "xml": xml, "externals": externals,
+            "meta": {"family": "buffer", "kind": kind, "field": field, "carrier": carrier}}
+
+
+def buffer_models():
+    return [buffer_model(k, f, c) for k, cs in BUFFER_KINDS.items() for f in ("name", "units", "component") for c in cs]
+
+
+# --------------------------------------------------------------------------- several NLA systems, some eliminated by externals
+def nla_elimination_models():
+    """three NLA systems (1, 2 and 1 unknowns) in every order, with every non-empty subset of the unknowns of ONE system
+    (first / middle / last) handed to Analyser::addExternalVariable, plus the first and the last system eliminated
+    together; with and without ODEs.  An NLA equation whose unknowns are all external is dropped AFTER it consumed an NLA
+    system index, so the indices of the remaining systems have gaps; a partly externalised 2-unknown system may become
+    overconstrained (then both code strings must be empty)."""
+    systems = {
+        "S1": (["z1"], [_v("z1")], [eqn(ap("plus", ci("z1"), ap("times", ci("b"), ci("z1"))), ci("a"))]),
+        "S2": (["u", "v"], [_v("u", init="1"), _v("v", init="1")],
+               [eqn(ap("plus", ci("u"), ci("v")), ci("a")), eqn(ap("minus", ci("u"), ci("v")), ci("c"))]),
+        "S3": (["z3"], [_v("z3")], [eqn(ap("plus", ci("z3"), ap("times", ci("c"), ci("z3"))), ci("b"))]),
+    }
+    out = []
+    for kind in ("nla", "dae"):
+        for perm in itertools.permutations(["S1", "S2", "S3"]):
+            marks = [[]]
+            for s in perm:
+                unk = systems[s][0]
+                for r in range(1, len(unk) + 1):
+                    for sub in itertools.combinations(unk, r):
+                        marks.append(list(sub))
+            marks.append(systems[perm[0]][0][:1] + systems[perm[2]][0][:1])      # first and last together
+            marks.append(systems[perm[0]][0] + systems[perm[1]][0])              # first and middle entirely
+            for mk in marks:
+                variables = [_v("a", init="2"), _v("b", init="3"), _v("c", init="1"), _v("w")]
+                eqs = []
+                for sname in perm:
+                    variables += systems[sname][1]
+                    eqs += systems[sname][2]
+                eqs.append(eqn(ci("w"), ap("plus", ci("z1"), ci("u"), ci("z3"))))
+                if kind == "dae":
+                    variables += [_v("t"), _v("x", init="1")]
+                    eqs.append(eqn(ap("diff", "<bvar>%s</bvar>" % ci("t"), ci("x")), ap("plus", ci("a"), ci("v"))))
+                name = "nlasys__%s__%s__%s" % (kind, "".join(perm), "_".join(mk) or "none")
+                xml = _HDR % name + '  <component name="main">\n' + "".join(variables) + _MATH % "".join(eqs) + "  </component>\n</model>\n"
+                out.append({"name": name, "xml": xml, "externals": ["main." + m for m in mk],
+                            "meta": {"family": "nla_elimination", "kind": kind, "order": "".join(perm), "marked": list(mk)}})
+    return out
+
+
 def invalid_models():
     """(name, xml, externals, expected AnalyserModel type)"""
     def one(name, variables, eqs):
